@@ -565,3 +565,26 @@ func encloses(outer, inner ast.Node) bool {
 	})
 	return found
 }
+
+// ConstBool: the value of a boolean constant expression.
+func (f *Func) ConstBool(e ast.Expr) (bool, bool) {
+	v := f.ConstVal(e)
+	if v == nil || v.Kind() != constant.Bool {
+		return false, false
+	}
+	return constant.BoolVal(v), true
+}
+
+// addressTaken: &obj occurs somewhere in the function (literals included).
+func (f *Func) addressTaken(obj types.Object) bool {
+	found := false
+	ast.Inspect(f.Body, func(n ast.Node) bool {
+		if u, ok := n.(*ast.UnaryExpr); ok && u.Op == token.AND {
+			if id, ok := ast.Unparen(u.X).(*ast.Ident); ok && f.ObjOf(id) == obj {
+				found = true
+			}
+		}
+		return !found
+	})
+	return found
+}
